@@ -68,28 +68,65 @@ type pointPools struct {
 	g2 map[string]bn254.G2Affine // pattern over (x1,x0,y1,y0)
 }
 
+// pattern letter per coordinate: S = shorter than 32 bytes, L = full width, T = full width and >= r (top of the base field)
 func pat(ls ...int) string {
 	s := ""
 	for _, l := range ls {
-		if l < 32 {
+		switch {
+		case l < 32:
 			s += "S"
-		} else {
+		case l == 33:
+			s += "T"
+		default:
 			s += "L"
 		}
 	}
 	return s
 }
 
+func fpClass(e *fp.Element) int {
+	b := e.BigInt(new(big.Int))
+	if b.Cmp(bn254R) >= 0 {
+		return 33
+	}
+	return (b.BitLen() + 7) / 8
+}
+
 func buildPools(rng *rand.Rand) *pointPools {
 	pp := &pointPools{g1: map[string]bn254.G1Affine{}, g2: map[string]bn254.G2Affine{}}
 	_, _, g1, g2 := bn254.Generators()
 	pp.g1["SS"] = g1 // (1, 2)
-	for i := 0; i < 200000 && (len(pp.g1) < 4 || len(pp.g2) < 5); i++ {
+	// G1 points whose x lies in [r, p): x = p-1, p-2, ... until x^3 + 3 is a square (G1 has cofactor 1)
+	var x, rhs, y, three fp.Element
+	three.SetUint64(3)
+	x.SetBigInt(new(big.Int).Sub(fp.Modulus(), big.NewInt(1)))
+	var one fp.Element
+	one.SetOne()
+	for i := 0; i < 64; i++ {
+		rhs.Square(&x).Mul(&rhs, &x).Add(&rhs, &three)
+		if y.Sqrt(&rhs) != nil {
+			p := bn254.G1Affine{X: x, Y: y}
+			if p.IsOnCurve() {
+				key := pat(fpClass(&p.X), fpClass(&p.Y))
+				if _, ok := pp.g1[key]; !ok {
+					pp.g1[key] = p
+				}
+				var q bn254.G1Affine
+				q.Neg(&p)
+				key = pat(fpClass(&q.X), fpClass(&q.Y))
+				if _, ok := pp.g1[key]; !ok {
+					pp.g1[key] = q
+				}
+			}
+		}
+		x.Sub(&x, &one)
+	}
+	for i := 0; i < 200000 && (len(pp.g1) < 5 || len(pp.g2) < 5); i++ {
 		k := new(big.Int).Rand(rng, bn254R)
-		if len(pp.g1) < 4 {
+		if len(pp.g1) < 5 {
 			var p bn254.G1Affine
 			p.ScalarMultiplication(&g1, k)
-			key := pat(fpLen(&p.X), fpLen(&p.Y))
+			key := pat(fpClass(&p.X), fpClass(&p.Y))
 			if _, ok := pp.g1[key]; !ok {
 				pp.g1[key] = p
 			}
